@@ -12,11 +12,11 @@ CHECKS = {
 }
 CHECKS.update({
  "C04": ("bounded-exhaustive negative-space enumeration with a three-way oracle (legal / illegal / convention-dependent) from the independent ISA reference",
-         "For every mnemonic each operand position is swept over its whole window (all 32 registers, immediates/ports/bits/displacements/addresses far beyond both ends of the legal range incl. negatives, every pointer form) inside frames for the other positions, plus operand-kind confusions, operand-count confusions, bad register names and the reduced core (~130k single-instruction builds in quick, x10 windows in thorough). Tuples the ISA cannot encode must yield an error value (a panic counts as a violation); legal tuples must give the reference words; convention-dependent spellings may do either.",
+         "For every mnemonic each operand position is swept over its whole window (all 32 registers, immediates/ports/bits/displacements/addresses far beyond both ends of the legal range incl. negatives, every pointer form) inside frames for the other positions, plus operand-kind confusions, operand-count confusions, bad register names and the reduced core (~160k single-instruction builds in quick incl. wrap-around twins of legal values modulo 2^8/2^16/2^32, x10 windows in thorough). Tuples the ISA cannot encode must yield an error value (a panic counts as a violation); legal tuples must give the reference words; convention-dependent spellings may do either.",
          "Trusts isa::assemble's legality judgement (AVR manual ranges and register classes). Negative 8-bit immediates -128..-1, `ld r,Y+q`, `ldd r,Y` and `spm Z+` are classified convention-dependent so the check never demands more than the statement.",
          "DESIGN.md §5 C04"),
  "C05": ("operator grid + proptest expression trees against a checked-i64 reference evaluator, minimal-parenthesis rendering",
-         "Every binary operator on a 30x30 grid of boundary operands, every unary operator and function on 30 operands, all literal spellings and character literals (22k cases), plus 100k (quick) / 3M (thorough) generated expression trees over literals, .equ symbols defined before/after and labels, rendered with only the parentheses the documented precedence table requires and observed through `.dq`. Values must match the reference; division/remainder by zero, arithmetic overflow and out-of-range shift counts must fail the build.",
+         "Every binary operator on a 30x30 grid of boundary operands, every unary operator and function on 30 operands, all literal spellings and character literals (22k cases), plus 400k (quick) / 6M (thorough) generated expression trees over literals, .equ symbols defined before/after and labels, rendered with only the parentheses the documented precedence table requires and observed through `.dq`. Values must match the reference; division/remainder by zero, arithmetic overflow and out-of-range shift counts must fail the build.",
          "Reference evaluator in harness/src/model.rs (documented AVR assembler operator table on checked i64). Tolerated where the documentation is silent: >> of a negative operand, exp2(63), log2/page not checked.",
          "DESIGN.md §5 C05"),
  "C13": ("exhaustive device x instruction-form enumeration against the documented meaning of the feature flags",
@@ -24,15 +24,15 @@ CHECKS.update({
          "Feature flags are read from the tool's table (the property defers to it); their meaning is taken from the AVR/avra documentation in isa::gate. Operand tuples per form are sampled (3), forms and devices are complete.",
          "DESIGN.md §5 C13"),
  "C02": ("proptest program recipes interpreted per device, compared byte for byte with the reference layout model; label values observed through a .dd table",
-         "20k (quick) / 400k (thorough) generated multi-segment programs per run over every device of the table: interleaved .cseg/.dseg/.eseg blocks, forward .org (literal, constant expression or earlier .equ), one- and two-word instructions (one-word lds/sts on reduced cores), odd/even .db with strings, .dw/.dd/.dq, .byte, labels before items and at block ends. code, eeprom and ram_filling must equal the model's layout and every label value (made visible in a final .dd table) must equal the position of the item that follows it. Backward .org must fail.",
+         "100k (quick) / 1M (thorough) generated multi-segment programs per run over every device of the table: interleaved .cseg/.dseg/.eseg blocks, forward .org (literal, constant expression or earlier .equ), one- and two-word instructions (one-word lds/sts on reduced cores), odd/even .db with strings, .dw/.dd/.dq, .byte, labels before items and at block ends. code, eeprom and ram_filling must equal the model's layout and every label value (made visible in a final .dd table) must equal the position of the item that follows it. Backward .org must fail.",
          "Reference layout model harness/src/model.rs. Input domain restrictions of DESIGN §4 (.org is followed by an item of the same segment, never follows a label, `.org 0` only at position 0). Known finding: .byte with a non-literal operand (exercised in a separate fixed leg, excluded from the random stream).",
-         "DESIGN.md §5 C02"),
+         "DESIGN.md §5 C02, §11"),
  "C03": ("deterministic boundary sweep + proptest placements, decoded with the independent decoder and compared with the reference model",
-         "Every branch kind (18 br*, brbs/brbc, rjmp, rcall) x every distance within 3 of both range limits x 4 fillers deterministically (1848 cases) plus 30k (quick) / 600k (thorough) generated placements with fillers of one/two-word instructions, odd .db, .dw and .org gaps, targets spelled as label, pc±k, label+k, label-k. A reachable target must give exactly displacement d (the harness decodes the word with its own decoder); an unreachable one must fail the build.",
+         "Every branch kind (18 br*, brbs/brbc, rjmp, rcall) x every distance within 3 of both range limits x 4 fillers deterministically (about 6 000 cases incl. distances congruent to reachable ones modulo the field size, 2^8 and 2^16, on four device variants) plus 120k (quick) / 1.5M (thorough) generated placements with fillers of one/two-word instructions, odd .db, .dw and .org gaps, targets spelled as label, pc±k, label+k, label-k. A reachable target must give exactly displacement d (the harness decodes the word with its own decoder); an unreachable one must fail the build.",
          "isa::assemble / isa::decode for the displacement field; the construction is cross-checked against the model (any inconsistency is a harness error, exit 2).",
          "DESIGN.md §5 C03"),
  "C06": ("proptest data-directive programs against the reference model, with single-fault must-fail variants",
-         "30k (quick) / 600k (thorough) programs of .db/.dw/.dd/.dq lines in flash and EEPROM with values within ±2 of both ends of each width's range, strings (empty, hostile ASCII, multi-byte UTF-8), forward .equ symbols, labels, .byte in EEPROM; bytes must match the model (little-endian, exact width, one pad byte per odd .db line in flash only). Variants with exactly one fault (value beyond either end, string in a word directive, data in .dseg, .byte in .cseg) must fail.",
+         "120k (quick) / 1.5M (thorough) programs of .db/.dw/.dd/.dq lines in flash and EEPROM with values within ±2 of both ends of each width's range, strings (empty, hostile ASCII, multi-byte UTF-8), forward .equ symbols, labels, .byte in EEPROM; bytes must match the model (little-endian, exact width, one pad byte per odd .db line in flash only). Variants with exactly one fault (value beyond either end, string in a word directive, data in .dseg, .byte in .cseg) must fail.",
          "Accepted range per width is signed-min..unsigned-max (-128..255 etc.), the union the documentation describes; .dq accepts every i64.",
          "DESIGN.md §5 C06"),
  "C07": ("round trip through the real writer and an independent strict Intel HEX reader over enumerated and random image lengths",
@@ -40,31 +40,31 @@ CHECKS.update({
          "harness/src/ihex.rs implements the Intel HEX specification (segment and linear base records).",
          "DESIGN.md §5 C07"),
  "C12": ("exhaustive device x memory x boundary grid, shipped part-definition files vs enforced capacities, random programs for reported sizes",
-         "Every device + no device x {flash, EEPROM, RAM} x usage {cap-1, cap, cap+1} x 4 ways of reaching it (2.1k builds up to 8 MiB): builds iff usage <= capacity, reports the device's sizes and ram_filling = data extent. Every shipped includes/*def.inc whose device is in the table: the four figures it declares (pragma AVRPART MEMORY, falling back to FLASHEND/E2END/SRAM_*) are compared with what is enforced, through `.device` and (when the file assembles) through a build that includes it. Unknown and second .device must fail. Plus 2k/100k random multi-segment programs for sizes.",
+         "Every device + no device x {flash, EEPROM, RAM} x usage {cap-1, cap, cap+1} x 4 ways of reaching it (2.1k builds up to 8 MiB): builds iff usage <= capacity, reports the device's sizes and ram_filling = data extent. Every shipped includes/*def.inc whose device is in the table: the four figures it declares (pragma AVRPART MEMORY, falling back to FLASHEND/E2END/SRAM_*) are compared with what is enforced, through `.device` and (when the file assembles) through a build that includes it. Unknown and second .device must fail. Plus 8k/200k random multi-segment programs for sizes.",
          "Shipped files naming a device that is not in the table are counted (skipped), not reported: the statement makes an unknown device an error. RAM start is only observable when RAM size > 0.",
          "DESIGN.md §5 C12"),
  "C08": ("enumerated chain shapes + proptest conditional trees with poison in unselected branches; reference model and metamorphic blank/delete relations",
-         "Every chain shape with <=3 arms x every truth assignment x optional .else x a nested chain in each position (356 cases) plus 20k (quick) / 500k (thorough) generated trees (1-4 arms, depth 3, conditions on literals, .equ comparisons, .ifdef/.ifndef). Selected bodies carry unique markers (data, messages, .equ/label definitions read back later); unselected bodies carry poison (unparsable text, .error, undefined macros, bad operands, duplicate labels, redefinitions, .device, missing include, unevaluable nested conditionals, .macro, .exit, .define). The image, the messages with their line numbers and the sizes must equal the model's, and the full result must equal that of the program with the unselected lines blanked and deleted.",
+         "Every chain shape with <=3 arms x every truth assignment x optional .else x a nested chain in each position (356 cases) plus 100k (quick) / 1.5M (thorough) generated trees (1-4 arms, depth 3, conditions on literals, .equ comparisons, .ifdef/.ifndef). Selected bodies carry unique markers (data, messages, .equ/label definitions read back later); unselected bodies carry poison (unparsable text, .error, undefined macros, bad operands, duplicate labels, redefinitions, .device, missing include, unevaluable nested conditionals, .macro, .exit, .define). The image, the messages with their line numbers and the sizes must equal the model's, and the full result must equal that of the program with the unselected lines blanked and deleted.",
          "Reference conditional semantics in model.rs (first true arm, else .else). Poison never contains an unbalanced conditional keyword; conditions only use what is known while reading (literals, earlier .equ, .define flags).",
          "DESIGN.md §5 C08"),
  "C09": ("proptest macro programs; differential tool(with macros) vs tool(hand-expanded by AST substitution) vs reference model",
-         "20k (quick) / 400k (thorough) programs: 1-4 macros with 0-10 typed parameters (register, pointer form, Y/Z+q, whole expression, embedded atom, byte, condition, label number), bodies with instructions/data over @n, .if @n/.else, nested calls passing @n and expressions over @n, .dseg/.eseg excursions (also as last lines), parameterised labels; 1-6 calls in other letter case, before and after the definition, with generated expression arguments. The generator expands calls itself on the AST; build(program with macros) must equal build(hand-expanded program) and the model image. Undefined macro / missing used argument must fail.",
+         "80k (quick) / 1M (thorough) programs (plus deterministic many-call legs): 1-4 macros with 0-10 typed parameters (register, pointer form, Y/Z+q, whole expression, embedded atom, byte, condition, label number), bodies with instructions/data over @n, .if @n/.else, nested calls passing @n and expressions over @n, .dseg/.eseg excursions (also as last lines), parameterised labels; 1-6 calls in other letter case, before and after the definition, with generated expression arguments. The generator expands calls itself on the AST; build(program with macros) must equal build(hand-expanded program) and the model image. Undefined macro / missing used argument must fail.",
          "Embedded positions (`@0*2`) only receive atoms, function calls or parenthesised arguments so that textual and value substitution agree (the statement does not choose); no .message inside macro bodies (their position in the message list is unspecified).",
          "DESIGN.md §5 C09"),
  "C10": ("proptest define/use histories over all four symbol kinds against the reference binding model, single-fault must-fail variants, alias->register metamorphic relation",
-         "30k (quick) / 500k (thorough) programs of 2-9 symbols (code/data/EEPROM labels, .equ incl. references to other symbols, .set with sequential reassignments, .def/.undef/re-.def) and 4-27 define/use steps in generated order, each occurrence of a name in its own letter case. Image must equal the model's binding; variants with one fault (definition deleted, duplicate label, alias out of scope, .set used before assignment) must fail; replacing alias uses by the register must not change the image.",
+         "120k (quick) / 1.5M (thorough) programs of 2-9 symbols (code/data/EEPROM labels, .equ incl. references to other symbols, .set with sequential reassignments, .def/.undef/re-.def) and 4-27 define/use steps in generated order, each occurrence of a name in its own letter case. Image must equal the model's binding; variants with one fault (definition deleted, duplicate label, alias out of scope, .set used before assignment) must fail; replacing alias uses by the register must not change the image.",
          "Names are unique across symbol kinds (collisions between kinds are not defined by the property); re-.def only after .undef.",
          "DESIGN.md §5 C10"),
  "C11": ("proptest split of a flat program into a file tree on disk; differential build_file(tree) vs build_str(pasted text) vs reference model",
-         "3k (quick) / 60k (thorough) generated trees of 1-8 files, depth <= 4, written under scratch/: every file is reachable by exactly one documented rule (path as written absolute / relative to the working directory, includer's directory or sub/, caller-supplied directory, .includepath absolute or relative to the file carrying it, carried by the includer, an enclosing file or a previously included sibling). Labels, .equ, macros, .define flags, .device and messages cross file boundaries in both directions; 20 % of files end with .exit + poison. build_file(tree) must equal build_str(pasted text) in images, sizes, ram_filling and message texts; message line numbers must be the lines in their own files; the pasted text must match the model. A file that exists nowhere must fail with an error naming it.",
+         "12k (quick) / 150k (thorough) generated trees of 1-8 files, depth <= 4, written under scratch/: every file is reachable by exactly one documented rule (path as written absolute / relative to the working directory, includer's directory or sub/, caller-supplied directory, .includepath absolute or relative to the file carrying it, carried by the includer, an enclosing file or a previously included sibling). Labels, .equ, macros, .define flags, .device and messages cross file boundaries in both directions; 20 % of files end with .exit + poison. build_file(tree) must equal build_str(pasted text) in images, sizes, ram_filling and message texts; message line numbers must be the lines in their own files; the pasted text must match the model. A file that exists nowhere must fail with an error naming it.",
          "File names are unique so the (undocumented) search order never matters; .exit only at the end of a file; the harness's working directory is /verif.",
          "DESIGN.md §5 C11"),
  "C14": ("metamorphic: one generated program rendered under two generated styles must give the canonical rendering's result",
-         "30k (quick) / 600k (thorough) pairs: a valid program from the union of the layout, expression, data, conditional, macro and symbol generators rendered under two independent styles over nine dimensions (three comment kinds with hostile text, blank/comment-only lines, spaces/tabs at the permitted positions, LF/CRLF, case of mnemonics, registers, function names, symbol references, radix and zero padding). Each rendering must produce exactly the canonical rendering's code, eeprom, sizes, ram_filling and message texts (or fail like it).",
+         "120k (quick) / 1.5M (thorough) pairs: a valid program from the union of the layout, expression, data, conditional, macro and symbol generators rendered under two independent styles over nine dimensions (three comment kinds with hostile text, blank/comment-only lines, spaces/tabs at the permitted positions, LF/CRLF, case of mnemonics, registers, function names, symbol references, radix and zero padding). Each rendering must produce exactly the canonical rendering's code, eeprom, sizes, ram_filling and message texts (or fail like it).",
          "White-space positions restricted to those the grammar documents/accepts (DESIGN §4: none inside index forms, none between a unary operator and its operand, none before a label's colon); directive names are not re-cased; >=95 % of canonical renderings must build or the run is declared broken.",
          "DESIGN.md §5 C14"),
  "C15": ("proptest single-fault injection at generated positions with a line-shift metamorphic relation; message-order oracle against a blanked twin program",
-         "18k (quick) / 360k (thorough) programs with exactly one injected fault of 13 kinds on a three-digit line whose number cannot occur otherwise in the program: the build must fail and the error text must contain that line number as a stand-alone token, and number+k after k blank lines are inserted above. 8k/160k message programs: .message/.warning/.error at top level, in taken and untaken arms and in EEPROM blocks: images equal those of the twin with the directives blanked, the message list holds exactly the assembled ones in source order with their own line numbers, .error fails exactly when assembled.",
+         "72k (quick) / 360k (thorough) programs with exactly one injected fault of 18 kinds on a three-digit line whose number cannot occur otherwise in the program: the build must fail and the error text must contain that line number as a stand-alone token, and number+k after k blank lines are inserted above. 32k/160k message programs: .message/.warning/.error at top level, in taken and untaken arms and in EEPROM blocks: images equal those of the twin with the directives blanked, the message list holds exactly the assembled ones in source order with their own line numbers, .error fails exactly when assembled.",
          "The message format itself is not pinned (only text, order and a line-number token). For a duplicate label the line of either definition is accepted.",
          "DESIGN.md §5 C15"),
  "C16": ("bounded-exhaustive operand dictionary + seeded mutation fuzzing + structural stress inputs, every case in an isolated worker process with rlimit and watchdog",
@@ -76,7 +76,7 @@ CHECKS.update({
          "Real OS threads, not an owned scheduler: an interleaving-specific race would only be found by chance; the realistic failure (shared mutable state between builds) is visible sequentially as well. Repetition inside one process exercises different HashMap seeds.",
          "DESIGN.md §5 C17"),
  "C18": ("proptest CLI invocations in fresh directories; differential against build_file in the harness, outputs decoded with the independent Intel HEX reader, directory snapshot comparison",
-         "800 (quick) / 20k (thorough) runs of the avra-rs binary built from the tree: 11 kinds of source (valid code / code+EEPROM / EEPROM only / empty / syntax error / semantic error / missing include / nonexistent / local include / above 64 KiB / messages) x file-name shapes x relative/absolute source path x -o/-e each absent, writable, missing parent directory or an existing directory x -v x short/long options x pre-existing output files with sentinel content. Success: exit 0, <stem>.hex / <stem>.eep.hex (or -o/-e) decode to exactly the library's images, nothing else changes. Failing build: non-zero exit, a diagnostic, directory tree byte-for-byte unchanged. Unwritable output: non-zero exit and a diagnostic.",
+         "1.6k (quick) / 20k (thorough) runs of the avra-rs binary built from the tree: 12 kinds of source (valid code / code+EEPROM / EEPROM only / empty / syntax error / semantic error / missing include / nonexistent / local include / above 64 KiB / messages) x file-name shapes x relative/absolute source path x -o/-e each absent, writable, missing parent directory or an existing directory x -v x short/long options x pre-existing output files with sentinel content. Success: exit 0, <stem>.hex / <stem>.eep.hex (or -o/-e) decode to exactly the library's images, nothing else changes. Failing build: non-zero exit, a diagnostic, directory tree byte-for-byte unchanged. Unwritable output: non-zero exit and a diagnostic.",
          "Unwritable locations are limited to what root cannot write either (missing parent directory, target is a directory). An empty flash/EEPROM image may be represented by no file, an EOF-only file or an untouched pre-existing file (the statement does not say). The CLI is the debug build of the snapshot.",
          "DESIGN.md §5 C18"),
 })
